@@ -110,17 +110,6 @@ Theorem c41_legacy_rows_le_count_sliced : forall d q off lim,
 Proof. exact legacy_rows_le_count_sl. Qed.
 Print Assumptions c41_legacy_rows_le_count_sliced.
 
-(* legacy Query.exists(): agrees with the rows except for Query.union(), where it tests a cartesian product *)
-Theorem c41_exists_legacy_union_refuted : exists d q off lim,
-  orm_exec_sl d q off lim true = [] /\ orm_count_sl d q off lim = 0 /\ orm_exists_legacy d q off lim = true.
-Proof. exact exists_legacy_union_refuted. Qed.
-Print Assumptions c41_exists_legacy_union_refuted.
-
-Theorem c41_exists_legacy_guarded : forall d q off lim, is_union q = false ->
-  orm_exists_legacy d q off lim = negb (Nat.eqb (length (orm_exec_sl d q off lim false)) 0).
-Proof. exact exists_legacy_guarded. Qed.
-Print Assumptions c41_exists_legacy_guarded.
-
 (* self-referential any() / has() (expression and keyword form): the criterion speaks about the related row *)
 Theorem c41_self_referential_criterion_meaning : forall d e na n c,
   lookup e na = grow_c n -> na <> sub_alias -> beval d e (tr_ncrit na c) = neval d n c.
@@ -188,3 +177,10 @@ Example c41_ex_slice :
   orm_count_sl ex_db (QJoinPC false TgC STrue STrue BothEnt) 2 None = 1 /\
   orm_exec_sl ex_db (QJoinPC false TgC STrue STrue BothEnt) 1 (Some 1) false = [ [IEnt 0 1; IEnt 1 5] ]%Z.
 Proof. split; vm_compute; reflexivity. Qed.
+
+(* formerly refuted (Query.union().offset(1).exists() tested union x p; repaired in /repo 2942091): exists() now
+   agrees with the rows for the legacy union as for every other query (c41_count_exists_agree_sliced) *)
+Example c41_ex_legacy_union_exists :
+  orm_exec_sl wit_db3 wit_q3 1 None true = [] /\ orm_count_sl wit_db3 wit_q3 1 None = 0 /\
+  orm_exists_sl wit_db3 wit_q3 1 None = false /\ orm_exists_sl wit_db3 wit_q3 0 None = true.
+Proof. repeat split; vm_compute; reflexivity. Qed.
